@@ -39,6 +39,7 @@ import (
 type HostSpec struct {
 	Name     string
 	TLS      bool
+	Insecure bool `json:",omitempty"` // TLS without certificate verification (tls: insecure): still TLS, never clear text
 	Auth     string // none | basic | bearer
 	IDToken  bool   // the client is configured with an identity token instead of user/password (bearer post flow)
 	Realm    string `json:",omitempty"` // token service host
@@ -426,6 +427,8 @@ func build(c Case) (*world, *imgen.Graph) {
 			ch := config.Host{Name: hs.Name, Hostname: hs.Name, TLS: config.TLSEnabled, RepoAuth: hs.RepoAuth}
 			if !hs.TLS {
 				ch.TLS = config.TLSDisabled
+			} else if hs.Insecure {
+				ch.TLS = config.TLSInsecure
 			}
 			if hs.Auth != "none" {
 				if hs.IDToken {
@@ -714,6 +717,7 @@ func genCase(r *lib.Rand) Case {
 	c := Case{Seed: r.U64()}
 	auth := func(name, realm string) HostSpec {
 		h := HostSpec{Name: name, TLS: r.Chance(75), Auth: lib.Pick(r, []string{"basic", "bearer", "bearer", "none"}), RepoAuth: r.Chance(25)}
+		h.Insecure = h.TLS && r.Chance(35)
 		if h.Auth == "bearer" {
 			h.Realm = realm
 			h.IDToken = r.Chance(35)
